@@ -491,6 +491,11 @@ def micro_programs():
             ("super-then-sub", a + l0 + ["=="] + a + l1 + ["==", "||"] + a + l0 + ["==", "||"]),
         ):
             emit(f"addrmix/{fld}/{combo}", lines)
+        # two branches that admit {A} and {A, B}, merged at a join (either branch first in the text)
+        one, two = a + l0 + ["==", "assert"], a + l0 + ["=="] + a + l1 + ["==", "||", "assert"]
+        for nm, first, second in (("join-sub-super", one, two), ("join-super-sub", two, one)):
+            out.append((f"addrmix/{fld}/{nm}", "\n".join(["#pragma version 6", "txn NumAppArgs", "bz second"] + first + ["b join", "second:"] + second + ["join:", "int 1", "return"])))
+            out.append((f"addrmix/{fld}/{nm}-sub", "\n".join(["#pragma version 6", "txn NumAppArgs", "bz second"] + first + ["callsub fin", "second:"] + second + ["callsub fin", "fin:", "int 1", "return"])))
     # an operand of && / || that was pushed in an EARLIER block (unknown to the block-local reconstruction), combined with a
     # comparison whose false / true set is informative, consumed on either outcome
     cmps = {"RekeyTo": (["txn RekeyTo", "global ZeroAddress"], ["==", "!="]), "Fee": (["txn Fee", "int 1000"], ["<=", ">"]),
@@ -535,6 +540,9 @@ def adversarial_programs():
         # unreachable code next to blocks that belong to two routines (main and a subroutine share `fail`; two subroutines share a tail)
         "shared-fail-and-dead": P + "txn Fee\nint 1000\n<=\nbz fail\ncallsub f\nint 1\nreturn\ndead:\nint 7\npop\nfail:\nerr\nf:\ntxn RekeyTo\nglobal ZeroAddress\n==\nbz fail\nretsub",
         "shared-tail-and-dead-jump": P + "callsub f\ncallsub g\nint 1\nreturn\ndead:\nint 1\nbnz tail\nerr\nf:\nint 1\nb tail\ng:\nint 2\nb tail\ntail:\npop\nretsub",
+        # an unreachable callsub directly before a label that stays reachable by a jump: the label is NOT a return point
+        "dead-callsub-before-live-label": P + "b live\ndead:\ncallsub f\nlive:\ncallsub f\nint 1\nreturn\nf:\nretsub",
+        "dead-callsub-before-live-label-2": P + "txn Fee\nint 1000\n<=\nbnz live\nerr\ndead:\ncallsub f\nlive:\nint 1\nreturn\nf:\nint 1\nretsub",
         "dead-calls": P + "int 1\nreturn\ndead:\ncallsub f\nint 1\nreturn\nf:\ntxn RekeyTo\nglobal ZeroAddress\n==\nassert\nretsub",
         "dead-three-successors": P + "b live\ndead:\nint 0\nswitch a b live\na:\nint 1\nreturn\nb:\nint 1\nreturn\nlive:\nint 1\nbnz a\nint 1\nbnz b\nint 1\nreturn",
         "labels-at-end": P + "int 1\nbnz end\nint 1\nreturn\nend:",
